@@ -3,5 +3,6 @@
 pub enum Error {
     QueryReturnedNoRows,
     Other(u8),
+    StatementChangedRows(usize),
 }
 pub type Result<T, E = Error> = core::result::Result<T, E>;
